@@ -158,7 +158,10 @@ func (nm LNumber) Format(f fmt.State, c rune) {
 	case 'c':
 		// C's %c writes the single byte (unsigned char)n, not the UTF-8 encoding of a rune
 		formatBytes(f, []byte{byte(int64(nm))})
-	case 'b', 'd', 'o', 'x', 'X', 'U':
+	case 'o', 'x', 'X':
+		// unsigned conversions in C: a negative value prints as its two's complement
+		defaultFormat(uint64(int64(nm)), f, c)
+	case 'b', 'd', 'U':
 		defaultFormat(int64(nm), f, c)
 	case 'e', 'E', 'f', 'F', 'g', 'G':
 		defaultFormat(float64(nm), f, c)
